@@ -123,7 +123,7 @@ def R2_collect(run):
                   detail="owed > vault => (vault, owed - vault) else (owed, 0)")
         h = facts.need_fn(mod + "::handler")
         run.touch(h)
-        cc = calls_to(h, lambda p: p == mod + "::calculate_collect_reward")
+        cc = calls_to(h, lambda p: p == calc.path)
         ok = len(cc) == 1
         if ok:
             a = cc[0][2]
